@@ -86,10 +86,9 @@ Proof.
   - destruct (Z.ltb_spec len (available s c)); lia.
 Qed.
 
-Ltac solve_upd :=
+Ltac solve_upd_with Rw Rp :=
   let x := fresh "x" in
-  intro x; unfold updf; destruct (x =? _);
-  repeat match goal with H : forall y, _ = _ |- _ => rewrite ?H end;
+  intro x; unfold updf; match goal with |- context [x =? ?k] => destruct (Z.eqb_spec x k) as [->|] end; rewrite ?Rw, ?Rp;
   first [reflexivity | lia | auto].
 
 (* ---- simulation between model state and specification state ---- *)
@@ -159,8 +158,8 @@ Proof.
               destruct (Z.leb_spec a' (win s c)); [|lia]. destruct (Z.leb_spec a' (connw s)); [|lia].
               destruct (Z.leb_spec a' (maxf s)); [|lia]. simpl.
               eexists; split; [reflexivity|]. constructor; simpl; try congruence.
-              ** solve_upd.
-              ** solve_upd.
+              ** solve_upd_with Rwin Rpend.
+              ** solve_upd_with Rwin Rpend.
         -- unfold flow_take in H. destruct (Z.gtb_spec len (available s c)); [lia|].
            inversion H; subst g s'; clear H.
            rewrite !wrap32_id by lia. split.
@@ -174,20 +173,20 @@ Proof.
               destruct (Z.leb_spec len (win s c)); [|lia]. destruct (Z.leb_spec len (connw s)); [|lia].
               destruct (Z.leb_spec len (maxf s)); [|lia]. simpl.
               eexists; split; [reflexivity|]. constructor; simpl; try congruence.
-              ** solve_upd.
-              ** solve_upd.
+              ** solve_upd_with Rwin Rpend.
+              ** solve_upd_with Rwin Rpend.
       * assert (len = 0) by lia. subst len. inversion H; subst g s'; clear H. split.
         -- constructor; simpl; auto. rewrite Ez. intros f [].
         -- simpl. rewrite Rpend, Eq. simpl. rewrite !Z.eqb_refl, Bool.eqb_reflx. simpl.
            eexists; split; [reflexivity|]. constructor; simpl; try congruence; try lia.
-           ++ solve_upd.
-           ++ solve_upd.
+           ++ solve_upd_with Rwin Rpend.
+           ++ solve_upd_with Rwin Rpend.
     + simpl in Hsid. subst d. inversion H; subst g s'; clear H. split.
       * constructor; simpl; auto. rewrite Ez. intros f [].
       * simpl. rewrite Rpend, Eq. simpl. rewrite !Z.eqb_refl. simpl.
         eexists; split; [reflexivity|]. constructor; simpl; try congruence; try lia.
-        -- solve_upd.
-        -- solve_upd.
+        -- solve_upd_with Rwin Rpend.
+        -- solve_upd_with Rwin Rpend.
   - (* the control queue goes first *)
     inversion H; subst g s'; clear H.
     destruct (Izero h) as (tag & ->); [left; reflexivity|]. split.
@@ -209,9 +208,9 @@ Proof.
     + destruct (flow_add 0 init) as [w|] eqn:Ea.
       * destruct (flow_add_exact 0 init w) as [-> Hw]; [unfold in32; lia|lia|exact Ea|].
         inversion H; subst; clear H. split.
-        -- constructor; simpl; auto. solve_upd.
+        -- constructor; simpl; auto. solve_upd_with Rwin Rpend.
         -- simpl. eexists; split; [reflexivity|]. constructor; simpl; auto.
-           ++ solve_upd.
+           ++ solve_upd_with Rwin Rpend.
            ++ intro x. unfold memz in *. rewrite existsb_app. simpl. rewrite Rknown, orb_false_r. apply orb_comm.
       * exfalso. unfold flow_add in Ea. rewrite wrap32_id in Ea by lia.
         destruct (Z.gtb_spec init (2147483647 - 0)); [lia|discriminate].
@@ -227,7 +226,7 @@ Proof.
               split; [reflexivity|]. split; [discriminate|exact Hwf].
            ++ rewrite updf_ne in Hin by exact Hx. auto.
         -- eexists; split; [reflexivity|]. constructor; simpl; auto.
-           solve_upd.
+           solve_upd_with Rwin Rpend.
       * split; [constructor; auto|]. eexists; split; [reflexivity|constructor; auto].
     + simpl. rewrite Rknown. destruct (memz d (sids s)) eqn:Em; inversion H; subst; clear H.
       * split.
@@ -236,7 +235,7 @@ Proof.
               split; [reflexivity|]. split; [discriminate|exact I].
            ++ rewrite updf_ne in Hin by exact Hx. auto.
         -- eexists; split; [reflexivity|]. constructor; simpl; auto.
-           solve_upd.
+           solve_upd_with Rwin Rpend.
       * split; [constructor; auto|]. eexists; split; [reflexivity|constructor; auto].
   - congruence.
   - (* SForget *)
@@ -245,7 +244,7 @@ Proof.
       * rewrite updf_eq in Hin. destruct Hin.
       * rewrite updf_ne in Hin by exact Hx. auto.
     + simpl. eexists; split; [reflexivity|]. constructor; simpl; auto.
-      solve_upd.
+      solve_upd_with Rwin Rpend.
   - (* SWin *)
     destruct (Z.eqb_spec sid 0) as [->|Hs].
     + destruct (flow_add (connw s) n) as [w|] eqn:Ea; inversion H; subst; clear H.
@@ -255,10 +254,10 @@ Proof.
     + destruct (memz sid (sids s)) eqn:Em.
       * destruct (flow_add (win s sid) n) as [w|] eqn:Ea; inversion H; subst; clear H.
         -- destruct (flow_add_exact _ _ _ (Iwin sid) Hwf Ea) as [-> Hw]. split.
-           ++ constructor; simpl; auto. solve_upd.
+           ++ constructor; simpl; auto. solve_upd_with Rwin Rpend.
            ++ simpl. destruct (Z.eqb_spec sid 0); [contradiction|].
               eexists; split; [reflexivity|]. constructor; simpl; auto.
-              solve_upd.
+              solve_upd_with Rwin Rpend.
         -- split; [constructor; auto|]. eexists; split; [reflexivity|constructor; auto].
       * inversion H; subst; clear H. split; [constructor; auto|]. eexists; split; [reflexivity|constructor; auto].
   - (* SMax *)
@@ -281,9 +280,11 @@ Proof.
     + destruct I as [Imax _ _ _ _]. destruct (Z.eqb_spec (maxf s) 0); [lia|discriminate].
   - assert (Hnt : o <> STake) by (intro; subst; discriminate).
     assert (H' : exists ob', sstep_det s o = (s', ob') /\ ob = ob').
-    { destruct o; try (exfalso; apply Hnt; reflexivity); simpl in H |- *;
-        match type of H with (let '(_, _) := ?e in _) = _ => destruct e as [s2 ob2] eqn:Ed end;
-        destruct (sobs_eqb ob ob2) eqn:Eo; try discriminate; apply sobs_eqb_eq in Eo; inversion H; subst; eauto. }
+    { assert (E : step_validate s o ob =
+                  let '(s2, ob2) := sstep_det s o in if sobs_eqb ob ob2 then Some s2 else None).
+      { destruct o; try reflexivity. exfalso; apply Hnt; reflexivity. }
+      rewrite E in H. destruct (sstep_det s o) as [s2 ob2].
+      destruct (sobs_eqb ob ob2) eqn:Eo; [|discriminate]. apply sobs_eqb_eq in Eo. inversion H; subst. eauto. }
     destruct H' as (ob' & Ed & ->). eapply det_step; eauto.
 Qed.
 
@@ -350,3 +351,144 @@ Proof.
       destruct (Z.ltb_spec a' 0); [lia|discriminate].
     + unfold flow_take in H. destruct (Z.gtb_spec len (available s c)); [lia|discriminate].
 Qed.
+
+Lemma sobs_eqb_refl a : sobs_eqb a a = true.
+Proof. destruct a; simpl; auto using fr_eqb_refl, Bool.eqb_reflx. Qed.
+
+Lemma take_from_not_none s c : sinv s -> memz c (take_choices s) = true -> take_from s c <> TNone.
+Proof.
+  intros I Em H. destruct I as [Imax Iconn Iwin Izero Isq].
+  unfold take_from in H. destruct (sq s c) as [|h t] eqn:Eq; [discriminate|].
+  destruct (Isq c h) as (Hsid & Hnctl & Hwf); [rewrite Eq; left; reflexivity|].
+  destruct h as [tag|d start len es|d tag]; try discriminate.
+  simpl in Hsid. subst d. destruct (Z.gtb_spec len 0) as [Hpos|]; [|discriminate].
+  pose proof (choice_writable s c c start len es t Em Eq ltac:(lia)) as Hw.
+  pose proof (writable_pos s c len Imax Hw) as Hp. cbv zeta in Hp.
+  destruct (Z.eqb_spec (available s c) 0); [lia|].
+  set (a' := if wrap32 (maxf s) <? available s c then wrap32 (maxf s) else available s c) in *.
+  destruct (len >? a').
+  - destruct (flow_take s c a'); [|discriminate]. destruct (a' <? 0); discriminate.
+  - destruct (flow_take s c len); discriminate.
+Qed.
+
+(* the canonical run (first eligible stream in creation order) is one of the allowed traces *)
+Lemma sstep_first_validates s o : sinv s ->
+  step_validate s o (snd (sstep_first s o)) = Some (fst (sstep_first s o)).
+Proof.
+  intro I. destruct (sop_is_take o) eqn:Eo.
+  2:{ assert (E1 : sstep_first s o = sstep_det s o) by (destruct o; try reflexivity; discriminate).
+      assert (E2 : forall ob, step_validate s o ob =
+                  let '(s2, ob2) := sstep_det s o in if sobs_eqb ob ob2 then Some s2 else None)
+        by (intro ob; destruct o; try reflexivity; discriminate).
+      rewrite E1, E2. destruct (sstep_det s o) as [s2 ob2]. simpl. rewrite sobs_eqb_refl. reflexivity. }
+  destruct o; try discriminate. simpl.
+  destruct (take_first s) as [| |g s'] eqn:Et; simpl.
+  - exfalso. unfold take_first in Et. destruct (take_choices s); eapply take_never_panics; eauto.
+  - unfold take_first in Et. destruct (take_choices s) as [|c l] eqn:Ec.
+    + unfold take_with in Et. destruct (maxf s =? 0); [discriminate|].
+      destruct (zeroq s); [reflexivity|discriminate].
+    + exfalso. unfold take_with in Et. destruct (maxf s =? 0); [discriminate|].
+      destruct (zeroq s); [|discriminate].
+      assert (Em : memz c (take_choices s) = true) by (rewrite Ec; simpl; rewrite Z.eqb_refl; reflexivity).
+      rewrite Em in Et. exact (take_from_not_none s c I Em Et).
+  - destruct (take_first_choice s g s' Et I) as (c & Hw & Hc).
+    assert (E : take_with s (fr_sid g) = TOk g s').
+    { destruct (zeroq s) as [|h t] eqn:Ez.
+      - rewrite <- (Hc eq_refl). exact Hw.
+      - unfold take_with in Hw |- *. rewrite Ez in *. exact Hw. }
+    rewrite E, fr_eqb_refl. reflexivity.
+Qed.
+
+Lemma lz_eqb_refl l : lz_eqb l l = true.
+Proof. induction l; simpl; rewrite ?Z.eqb_refl; auto. Qed.
+
+Lemma srun_validates ops : forall s p, sinv s -> Rel s p -> Forall wf_sop ops ->
+  svalidate s ops (srun s ops) = true.
+Proof.
+  induction ops as [|o r IH]; intros s p I Rr Hwf; simpl; [reflexivity|].
+  inversion Hwf as [|? ? Ho Hr]; subst.
+  pose proof (sstep_first_validates s o I) as Hv.
+  destruct (sstep_first s o) as [s' ob] eqn:Es. simpl in Hv. simpl. rewrite Hv.
+  destruct (validate_step s p o ob s' I Rr Ho Hv) as (I' & p' & _ & R').
+  rewrite Z.eqb_refl, lz_eqb_refl. simpl. eapply IH; eauto.
+Qed.
+
+(* headline statements *)
+Lemma allowed_traces_meet_spec ops obs :
+  Forall wf_sop ops -> svalidate sst0 ops obs = true -> spec_run spec0 ops (map fst obs) = true.
+Proof. intros. eapply validate_spec; eauto using sinv0, Rel0. Qed.
+
+Lemma model_run_meets_spec ops :
+  Forall wf_sop ops -> spec_run spec0 ops (map fst (srun sst0 ops)) = true.
+Proof.
+  intro Hwf. apply allowed_traces_meet_spec; [exact Hwf|].
+  eapply srun_validates; eauto using sinv0, Rel0.
+Qed.
+
+(* wire level: whenever the harness' correspondence check accepts an observation, the property holds of it *)
+Lemma agree_implies_prop i o :
+  (forall ops, dec_sops i = Some ops -> Forall wf_sop ops) ->
+  agree_C34 i o = true -> prop_C34 i o = true.
+Proof.
+  unfold agree_C34, prop_C34. intros Hwf H.
+  destruct (dec_sops i) as [ops|]; [|discriminate]. destruct (dec_steps o) as [obs|]; [|discriminate].
+  apply allowed_traces_meet_spec; auto.
+Qed.
+
+(* reachable states satisfy the invariant, hence take never panics on them, for any choice *)
+Inductive sreach : sst -> Prop :=
+| sreach0 : sreach sst0
+| sreach_det s o : sreach s -> wf_sop o -> o <> STake -> sreach (fst (sstep_det s o))
+| sreach_take s c f s' : sreach s -> take_with s c = TOk f s' -> (zeroq s = [] -> c = fr_sid f) -> sreach s'.
+
+Lemma sreach_inv s : sreach s -> sinv s /\ exists p, Rel s p.
+Proof.
+  induction 1 as [|s o _ [I [p Rr]] Hwf Hnt|s c f s' _ [I [p Rr]] Ht Hc].
+  - split; [exact sinv0|exists spec0; exact Rel0].
+  - destruct (sstep_det s o) as [s2 ob] eqn:Ed. simpl.
+    destruct (det_step s p o s2 ob I Rr Hwf Hnt Ed) as (I' & p' & _ & R'). eauto.
+  - destruct (take_step s p c f s' I Rr Ht Hc) as (I' & p' & _ & R'). eauto.
+Qed.
+
+Lemma reachable_take_never_panics s c : sreach s -> take_with s c <> TPanic.
+Proof. intro H. apply take_never_panics. exact (proj1 (sreach_inv s H)). Qed.
+
+(* the DATA frame handed out by take fits both windows and the frame size, and the windows shrink by its length *)
+Lemma take_within_windows s c d start len es s' :
+  sinv s -> take_with s c = TOk (FData d start len es) s' -> 0 < len ->
+  len <= win s d /\ len <= connw s /\ len <= maxf s /\
+  connw s' = connw s - len /\ win s' d = win s d - len.
+Proof.
+  intros I H Hlen. destruct I as [Imax Iconn Iwin Izero Isq]. unfold take_with in H.
+  destruct (Z.eqb_spec (maxf s) 0); [lia|]. destruct (zeroq s) as [|h t] eqn:Ez.
+  2:{ inversion H; subst. destruct (Izero (FData d start len es)) as (tg & E); [left; reflexivity|discriminate]. }
+  destruct (memz c (take_choices s)) eqn:Em; [|discriminate].
+  unfold take_from in H. destruct (sq s c) as [|h t] eqn:Eq; [discriminate|].
+  destruct (Isq c h) as (Hsid & Hnctl & Hwf); [rewrite Eq; left; reflexivity|].
+  destruct h as [tag|d0 start0 len0 es0|d0 tag]; [exfalso; exact (Hnctl tag eq_refl)| |inversion H].
+  simpl in Hsid. subst d0. destruct (Z.gtb_spec len0 0) as [Hpos|Hz].
+  2:{ inversion H; subst. lia. }
+  pose proof (choice_writable s c c start0 len0 es0 t Em Eq ltac:(lia)) as Hw.
+  pose proof (writable_pos s c len0 Imax Hw) as Hp. cbv zeta in Hp.
+  destruct (available_le s c) as [Haw Hac].
+  destruct (Z.eqb_spec (available s c) 0) as [E|_]; [lia|].
+  set (a' := if wrap32 (maxf s) <? available s c then wrap32 (maxf s) else available s c) in *.
+  destruct Hp as (_ & Ha1 & Ha2 & Ha3). pose proof (Iwin c) as Iwc. unfold in32 in *.
+  destruct (Z.gtb_spec len0 a').
+  - unfold flow_take in H. destruct (Z.gtb_spec a' (available s c)); [lia|].
+    destruct (Z.ltb_spec a' 0); [lia|]. inversion H; subst. simpl.
+    rewrite updf_eq, !wrap32_id by lia. lia.
+  - unfold flow_take in H. destruct (Z.gtb_spec len0 (available s c)); [lia|].
+    inversion H; subst. simpl. rewrite updf_eq, !wrap32_id by lia. lia.
+Qed.
+
+(* non-vacuity *)
+Definition ex_sops : list sop :=
+  [SWin 0 10; SMax 4; SNew 1 6; SNew 3 100; SAdd (FData 1 7 9 true); SAdd (FCtl 5); SAdd (FHdr 3 2);
+   STake; STake; STake; STake; STake; SWin 1 20; STake; SForget 1; STake].
+Lemma ex_sops_run : Forall wf_sop ex_sops /\
+  map fst (srun sst0 ex_sops) =
+  [OBool true; ONone; OBool true; OBool true; ONone; ONone; ONone;
+   OFrame (FCtl 5); OFrame (FHdr 3 2); OFrame (FData 1 7 4 false); OFrame (FData 1 11 2 false); ONone;
+   OBool true; OFrame (FData 1 13 3 true); ONone; ONone].
+Proof. split; [repeat constructor; simpl; lia|vm_compute; reflexivity]. Qed.
